@@ -1,6 +1,6 @@
 # property table for bin/mkmanifest: claim(id, level text, level note, DESIGN ref) / NA[id] = reason
 UC = "no check registered yet: harnesses for this property are still under construction in this session (see DESIGN.md section 4 for the plan)"
-for p in ["C02","C05","C06","C07","C10","C11","C12","C13","C14","C17","C18","C19","C20"]:
+for p in []:
     NA[p] = UC
 NA["C08"] = "needs symbolic execution of parser->translator->binder->planner->operators over a symbolic graph and query; far beyond what CBMC can encode for this code base (DESIGN.md section 5); the technique is not switched"
 NA["C09"] = "soundness of optimizer rewrites is semantic equivalence of two heap-allocated plan trees under execution on all graphs; neither rewrite nor execution is encodable within reach (DESIGN.md section 5)"
@@ -42,3 +42,76 @@ claim("C04",
       "transaction that committed after it began. One open known finding (read-only Serializable transaction refused) is carved out and pinned by a witness harness.",
       "Hand-enumerated skeleton shapes; <= 3 transactions, <= 3 entities; the global acyclicity argument (per-step rule => serial order) is not machine-checked here.",
       "DESIGN.md section 4 C04")
+
+NA["C05"] = ("every kernel of 'reopen gives back the closed state' needs the bincode decoder of WalRecord or a GrafeoDB over a directory: the decoder "
+             "(read-back of a two-frame log, and the bare encode/decode round trip of the id-only records) exhausted 12 GB after 9-11 min even with UTF-8 validation "
+             "and error formatting stubbed, because CBMC cannot fold the variant tag it reads back from the heap buffer and explores every record variant; "
+             "harnesses are kept as optional thorough ones (DESIGN.md 9.2, 9.4)")
+NA["C07"] = ("snapshot export/import is bincode over a full GrafeoDB (same decoder obstacle as C05) and the enumeration-epoch mechanism needs LpgStore + TransactionManager "
+             "with committed transactions, beyond the store-level budget measured in DESIGN.md 9.2; the suspected defect (all_nodes enumerates at the store's own epoch) is "
+             "described in DESIGN.md section 7 #11 but not decided by a solver check")
+NA["C14"] = ("LpgStore under CBMC: new() alone 30 s, create+get 68 s, any 2-3 operation word with a symbolic key, label or node choice had no verdict in 10 min (version chains, "
+             "adjacency chunks and label tables live in heap objects, DESIGN.md 9.2); the cross-accessor harnesses are kept as optional thorough ones; the pruning-soundness "
+             "clause of this property is decided under C10")
+
+claim("C02",
+      "Bounded model checking of the real TransactionManager and LpgStore composed exactly as session.rs composes them (begin, create_node at the transaction's start epoch, "
+      "rollback = discard_uncommitted_versions + abort): after a rollback the created node is invisible to a later reader outside and inside a transaction (the epoch the writer "
+      "started at is symbolic: 0 or 1 prior commits). One open known finding (rollback leaves the unversioned label index) is pinned by a witness harness.",
+      "Thorough-tier only harnesses (200-900 s each); the quick command runs the same set. Session itself is not encoded (its Arc<LpgStore> makes the store a heap object); "
+      "properties, edges, deletes, failed commits, dropped sessions, MERGE and query-issued mutations are outside the bound.",
+      "DESIGN.md 9.4 C02")
+claim("C06",
+      "Bounded model checking of the real WalRecovery::read_record over BufReader<File> on a symbolic disk (File reads stubbed): for frames with 1-, 2- and 5-byte payloads and EVERY "
+      "content of payload and checksum, a file cut at EVERY byte length strictly inside the frame never yields a record, and a cut inside the length prefix reads as a clean end of log.",
+      "Torn-frame kernel only. Crash points are unrolled (control concrete) so that the decoder is never reached; bit flips, complete frames, multi-frame logs, append-after-crash, "
+      "checkpoint files and rotation are outside (they need the bincode decoder, see C05 in not_applicable). crc32fast::hash is replaced by a bitwise CRC-32 model.",
+      "DESIGN.md 9.4 C06")
+claim("C10",
+      "Bounded model checking of zone-map pruning against the filter's own semantics, two pieces of real code: PropertyStorage::{set,might_match} / ZoneMapEntry::might_contain_* versus "
+      "ExpressionPredicate's comparison kernels, for two stored values and a literal over Int64xInt64xInt64 (all i64), Float64 (all non-NaN doubles), and mixed kinds (Null, Bool, "
+      "Timestamp with Int64), all six comparison operators: whenever the filter matches a stored value, pruning does not answer 'no match'.",
+      "Pruning kernel only, one column, two nodes, no removals; NaN stored values, strings, the planner's use of the answer (edge variables), property indexes, the range path, plan cache "
+      "and factorized execution are outside.",
+      "DESIGN.md 9.4 C10")
+claim("C11",
+      "Bounded model checking of the real expression evaluator kernels (eval_binary_op / eval_unary_op): for p = a OP b with OP in {=,<>,<,<=,>,>=,AND,OR,XOR} and operands over 11 kind "
+      "pairs of Null/Bool/Int64/Float64/Timestamp (all payload bits, NaN and mismatched kinds included), exactly one of p, NOT p, p IS NULL is true.",
+      "Three-valued partition kernel only; strings, IN, limits/skip, DISTINCT, COUNT and UNION operators and the identities at query-language level are outside.",
+      "DESIGN.md 9.4 C11")
+claim("C12",
+      "Bounded model checking of the real arithmetic evaluator kernels: + - * / % and unary minus return (Some or None) without panicking for EVERY pair of i64, every f64 bit "
+      "pattern, and mismatched operand kinds (dev-profile semantics: overflow checks on), including i64::MIN / -1, x / 0, i64::MIN % -1 and -i64::MIN.",
+      "Expression-arithmetic kernel only. Lexers, parsers, translators, binder, planner and the rest of execution are outside: the design-phase probes of the GQL lexer had no verdict "
+      "(DESIGN.md section 8 R4); the known lexer defect (byte-wise advance over multi-byte characters) is described in section 7 #7 but not decided by a solver check.",
+      "DESIGN.md 9.4 C12")
+claim("C13",
+      "Bounded model checking of the triple pattern kernel: TriplePattern::matches agrees with the set semantics for every universe triple and all 27 patterns (all 8 bound/unbound "
+      "shapes); Term equality is reflexive, symmetric, never holds across kinds, and equal lexical forms with different datatype/language tags are different terms.",
+      "Pattern-matching and term-equality kernels only: the store (insert/remove/indexes) is out of reach (a single concrete insert had no verdict in 5 min, DESIGN.md 9.2); SPARQL "
+      "translation, planning and execution are outside.",
+      "DESIGN.md 9.4 C13")
+claim("C17",
+      "Bounded model checking of the morsel arithmetic: generate_morsels covers [0,total) exactly with consecutive, non-empty, disjoint morsels for total <= 3 and EVERY usize morsel "
+      "size (0, larger than the input, near usize::MAX); Morsel::split_at yields two adjacent non-empty halves.",
+      "Morsel kernels only; worker threads, the scheduler, thread schedules, accumulator merges, sorted-run merges, push-vs-pull operators and spilling are outside.",
+      "DESIGN.md 9.4 C17")
+claim("C18",
+      "Bounded model checking of exact nearest-neighbour search and the scalar distance kernels: brute_force_knn over 3 one-dimensional vectors (finite f32, |x| <= 2^20), k in 0..=4, "
+      "Manhattan metric: at most k distinct ids from the index, each paired with its true distance (bitwise), sorted, min(k,n) of them, none omitted that is strictly closer; Manhattan "
+      "and dot-product kernels equal their definitions bit for bit on 2-dimensional vectors.",
+      "SIMD dispatch stubbed to the scalar kernels. Euclidean/Cosine are outside (CBMC models sqrt nondeterministically: spurious counterexample observed), as are HNSW, quantisers, "
+      "larger n and dim, batch search.",
+      "DESIGN.md 9.4 C18")
+claim("C19",
+      "Bounded model checking of the UnionFind kernel that components and Kruskal are built on: after any 3 unions on 4 elements connected() equals the reflexive-symmetric-transitive "
+      "closure, union() reports a merge exactly when the sets differed, find() is idempotent; class counts and the equivalence laws on 3 elements.",
+      "UnionFind kernel only; algorithms over the real store (shortest paths, components, MST, traversals, flow, centrality) are outside (store-based harnesses exceed the budget, DESIGN.md 9.2).",
+      "DESIGN.md 9.4 C19")
+claim("C20",
+      "Bounded model checking of the memory manager under a sequentialised schedule: a second thread's try_allocate runs (solver's choice) inside the first one's load/update window "
+      "(verif_yield hook in the CAS closure) or after it; for all request sizes allocated() never exceeds the hard limit and equals the sum of the grants, and returns to zero after "
+      "release; single-threaded for EVERY usize size (no overflow).",
+      "Memory-manager clause only, 2 threads x 1 allocation, well-nested schedules, atomics sequentially consistent, no registered consumers (eviction stubbed to 'frees nothing'); "
+      "identifier uniqueness, index tearing in LpgStore/RdfStore, commit epochs across threads, deadlock freedom are outside (Kani has no threads).",
+      "DESIGN.md 9.4 C20")
